@@ -108,6 +108,13 @@ check(
     "Exceptions are acceptable outcomes except on input the emitters themselves produced. Relaxed: P30 (ill-formed text: empty names / unparseable types), P35 (*args, **kwargs, positional-only), P29 (sqlalchemy None / server_default keys), P20/P49 (footer garbage in typ), P22.",
 )
 
+check(
+    "C07",
+    "Hypothesis-generated Python modules x histories of 1..3 doctrans runs (API and CLI entry); erased-AST equality, comment-token sequence, protected-line subsequence and fault-atomicity oracles against the ORIGINAL file",
+    "Generated-input search over programs: after every run of a generated history the file must compile, its AST with docstrings/annotations/type comments erased must equal the original's (defaults, *args/**kwargs, kw-only marker, decorators, bases, statements, nested defs), the COMMENT tokens must be the same sequence and every line outside def headers and docstrings byte-identical; when doctrans raises (also on generated syntax-error files) the bytes must be unchanged.",
+    "The four open shapes P19 (async docstring), P26 (comment in multi-line header), P27 (one-line def), P28 (raw docstring) are generated in a separate layer under their own labels and relax only the clause each corrupts.",
+)
+
 NOT_YET = "check not built yet in this round (work in progress; DESIGN.md section 4 has the plan)"
 
 
